@@ -1,6 +1,6 @@
 (* Per-run source tie for the reader: the PyO interpretation (Src/PyO.v) of the CURRENT source text of
      rtcmreader.RTCMReader.read / _parse_ubx / _parse_nmea / _parse_rtcm3 / _read_bytes / _read_line / _do_error / parse
-   (translated by tools/gen_src2.py into PyRtcmGen.SrcO) equals the hand-written model (Model/Reader.v), for EVERY
+   (translated by tools/gen_src2.py into PyRtcmGen.SrcOReader) equals the hand-written model (Model/Reader.v), for EVERY
    underlying stream (any record of stream operations, any stream state), every message constructor, every
    configuration, with or without an error handler, and every iteration budget.  The environment (what the stream,
    the handler / logger, calc_crc24q and RTCMMessage mean; the attributes of a constructed reader; how the model's
@@ -9,7 +9,7 @@ From Coq Require Import ZArith NArith List String Bool Lia.
 From Coq.Strings Require Import Byte.
 From PyRtcm Require Import Base.Bytes Model.Types Model.Crc Model.Reader Model.Socket.
 From PyRtcm Require Import Src.PyO Src.PyOLemmas Src.PyOReaderLemmas Src.ReaderEnv.
-From PyRtcmGen Require Import SrcO.
+From PyRtcmGen Require Import SrcOReader.
 Import ListNotations.
 Open Scope string_scope.
 Open Scope Z_scope.
@@ -564,8 +564,170 @@ Lemma read_ok j k st log0 hlog o st' : no_eof -> wfuel = (k + j)%nat ->
   call Msg W ext MT wfuel "read" srco_reader_read [] slf (st, log0) = (image Msg o, (slf, (st', (log0 ++ hlog)%list))).
 Proof.
   intros Hc Hw HR HB. enter srco_reader_read.
-  sx.
-  Show.
-Abort.
+  sx. rewrite exec_while.
+  pose proof (loop_ok j Hc k VUnbound VUnbound VUnbound VUnbound VUnbound st log0 hlog o st' HR HB) as L.
+  rewrite <- Hw in L.
+  match goal with |- context [wloop Msg W ?cnd ?bd wfuel ?s] =>
+    change (wloop Msg W cnd bd wfuel s) with (wl wfuel (S0 VUnbound VUnbound VUnbound VUnbound VUnbound st log0)) end.
+  destruct o as [raw m| |e|kk|w|]; cbn [loop_spec image] in *.
+  - destruct L as (b1 & b2 & bh & ->). unfold mk, rl. destruct m; cbn [optv]; sx; reflexivity.
+  - destruct L as (ls & ->). unfold mk. sx. reflexivity.
+  - destruct L as (ls & ->). unfold mk. sx. reflexivity.
+  - destruct L as (ls & ->). unfold mk. sx. reflexivity.
+  - destruct L as (ls & ->). unfold mk. sx. reflexivity.
+  - destruct L as (ls & ->). unfold mk. sx. reflexivity.
+Qed.
 End Top.
 End Reader.
+
+(* ================= linking: the methods as they sit in the translated class ================= *)
+Section Linked.
+Variables St Msg : Type.
+Variable ops : stream_ops St.
+Variable construct : bytes -> Z -> outcome Msg.
+Variable c : cfg.
+Variable h : bool.
+Notation W := (W St).
+Notation ext := (reader_ext St Msg ops construct).
+Notation slf := (reader_self Msg c h).
+Notation run_ wfuel := (run Msg W ext wfuel srco_reader_prog).
+Notation NMEA := srco_const_NMEA_HDR.
+Notation UBX := srco_const_UBX_HDR.
+Notation VALCK := srco_const_VALCKSUM.
+
+(* [run prog f] = [call <the methods after f> f] *)
+Ltac at_meth := unfold run, srco_reader_prog; rewrite ?link_skip by reflexivity; rewrite link_here.
+Ltac find_meth := rewrite ?link_skip by reflexivity; rewrite link_here; reflexivity.
+
+Lemma rb_linked wfuel MT : rb_spec St Msg ops c h (call Msg W ext MT wfuel "_read_bytes" srco_reader__read_bytes).
+Proof. intros z st log Hz. rewrite <- (Z2Nat.id z) at 1 by exact Hz. apply read_bytes_ok. Qed.
+Lemma rl_linked wfuel MT : rl_spec St Msg ops c h (call Msg W ext MT wfuel "_read_line" srco_reader__read_line).
+Proof. intros st log. apply read_line_ok. Qed.
+Lemma parse_linked wfuel MT : parse_spec St Msg construct (call Msg W ext MT wfuel "parse" srco_reader_parse).
+Proof. intros m v l a w. apply parse_ok. Qed.
+
+Theorem src_read_bytes_eq wfuel n st log :
+  run_ wfuel "_read_bytes" [VInt (Z.of_nat n)] slf (st, log) = img St Msg c h (@VBytes Msg) (read_bytes ops n st) log.
+Proof. at_meth. apply read_bytes_ok. Qed.
+
+Theorem src_read_line_eq wfuel st log :
+  run_ wfuel "_read_line" [] slf (st, log) = img St Msg c h (@VBytes Msg) (read_line ops st) log.
+Proof. at_meth. apply read_line_ok. Qed.
+
+Theorem src_do_error_eq wfuel e st log :
+  run_ wfuel "_do_error" [VExc (liberr_class e)] slf (st, log) = do_error_res St Msg c h e st log.
+Proof. at_meth. apply do_error_ok. Qed.
+
+(* RTCMReader.parse (static): any self, any world; neither is touched *)
+Theorem src_parse_eq wfuel m v l a w :
+  run_ wfuel "parse" [VBytes m; VInt v; VInt l] a w = (outcome_res Msg (parse construct VALCK v l m), (a, w)).
+Proof. at_meth. apply parse_ok. Qed.
+
+Theorem src_parse_nmea_eq wfuel : skip_spec St Msg c h (parse_nmea ops) (run_ wfuel "_parse_nmea").
+Proof. at_meth. eapply parse_nmea_ok; [find_meth|apply rl_linked]. Qed.
+
+Theorem src_parse_ubx_eq wfuel : skip_spec St Msg c h (parse_ubx ops) (run_ wfuel "_parse_ubx").
+Proof. at_meth. eapply parse_ubx_ok; [find_meth|apply rb_linked]. Qed.
+
+Theorem src_parse_rtcm3_eq wfuel hdr st log : (2 <= List.length hdr)%nat ->
+  run_ wfuel "_parse_rtcm3" [VBytes hdr] slf (st, log)
+  = img St Msg c h (pair_val Msg) (parse_rtcm3 ops construct VALCK c hdr st) log.
+Proof.
+  at_meth. eapply parse_rtcm3_ok; [find_meth|apply rb_linked|find_meth|apply parse_linked].
+Qed.
+
+(* read(): fuel = the model's fuel, j = what the interpreter's budget has beyond it *)
+Lemma read_linked j fuel st log0 hlog o st' :
+  no_eof Msg construct ->
+  read ops construct NMEA UBX VALCK srco_const_ERR_RAISE srco_const_ERR_LOG c fuel st = (hlog, o, st') ->
+  budget_ok Msg o j ->
+  run_ (fuel + j)%nat "read" [] slf (st, log0) = (image Msg o, (slf, (st', (log0 ++ hlog)%list))).
+Proof.
+  intros Hc HR HB. at_meth.
+  eapply read_ok with (j := j) (k := fuel);
+    [ find_meth | apply rb_linked
+    | find_meth | eapply parse_ubx_ok; [find_meth|apply rb_linked]
+    | find_meth | eapply parse_nmea_ok; [find_meth|apply rl_linked]
+    | find_meth | eapply parse_rtcm3_ok; [find_meth|apply rb_linked|find_meth|apply parse_linked]
+    | find_meth | intros e s l; apply do_error_ok
+    | exact Hc | reflexivity | exact HR | exact HB ].
+Qed.
+
+(* MAIN 1: whenever the model's read() with fuel [fuel] ends (message, end of stream, raised error), the source's read()
+   interpreted with a while-budget of fuel + 1 does the same: same result, same stream state, same handler calls,
+   self unchanged.  (One more unit than the model because a message found on the last unit still needs the loop
+   condition `while parsing` to be evaluated once more.) *)
+Theorem src_read_eq fuel st log0 hlog o st' :
+  no_eof Msg construct ->
+  read ops construct NMEA UBX VALCK srco_const_ERR_RAISE srco_const_ERR_LOG c fuel st = (hlog, o, st') ->
+  o <> ROutOfFuel ->
+  run_ (S fuel) "read" [] slf (st, log0) = (image Msg o, (slf, (st', (log0 ++ hlog)%list))).
+Proof.
+  intros Hc HR HO. rewrite <- Nat.add_1_r. eapply read_linked; eauto.
+  destruct o; cbn [budget_ok]; auto. congruence.
+Qed.
+
+(* MAIN 2: with the SAME budget the two agree on every outcome except a message: end of stream, a raised error and
+   running out of budget (ROutOfFuel = FOutOfFuel, after the same calls on the stream and the handler) *)
+Theorem src_read_eq_same_fuel fuel st log0 hlog o st' :
+  no_eof Msg construct ->
+  read ops construct NMEA UBX VALCK srco_const_ERR_RAISE srco_const_ERR_LOG c fuel st = (hlog, o, st') ->
+  (forall raw m, o <> RYield raw m) ->
+  run_ fuel "read" [] slf (st, log0) = (image Msg o, (slf, (st', (log0 ++ hlog)%list))).
+Proof.
+  intros Hc HR HO. rewrite <- (Nat.add_0_r fuel) at 1. eapply read_linked; eauto.
+  destruct o; cbn [budget_ok]; auto. exfalso. eapply HO. reflexivity.
+Qed.
+
+(* the model's fuel is only a bound: once read() ends within [fuel] it ends the same way with more *)
+Lemma read_fuel_mono d : forall fuel st hlog o st',
+  read ops construct NMEA UBX VALCK srco_const_ERR_RAISE srco_const_ERR_LOG c fuel st = (hlog, o, st') ->
+  o <> ROutOfFuel ->
+  read ops construct NMEA UBX VALCK srco_const_ERR_RAISE srco_const_ERR_LOG c (fuel + d) st = (hlog, o, st').
+Proof.
+  induction fuel as [|k IH]; intros st hlog o st' HR HO.
+  - cbn [read] in HR. inversion HR; subst. congruence.
+  - cbn [read Nat.add] in *.
+    destruct (attempt ops construct NMEA UBX VALCK c st) as [[[[raw m]|]|[le| |kk|w]] s1]; try exact HR.
+    + apply IH; assumption.
+    + destruct (quitonerror c =? 0); [apply IH; assumption|].
+      destruct (quitonerror c =? srco_const_ERR_RAISE); [exact HR|].
+      destruct (quitonerror c =? srco_const_ERR_LOG); [|apply IH; assumption].
+      destruct (read ops construct NMEA UBX VALCK srco_const_ERR_RAISE srco_const_ERR_LOG c k s1) as [[h1 o1] s2] eqn:E1.
+      inversion HR; subst. rewrite (IH _ _ _ _ E1 HO). reflexivity.
+Qed.
+
+(* MAIN 3 (corollary of MAIN 1): ... and with every larger budget *)
+Theorem src_read_eq_any_budget fuel wfuel st log0 hlog o st' :
+  no_eof Msg construct ->
+  read ops construct NMEA UBX VALCK srco_const_ERR_RAISE srco_const_ERR_LOG c fuel st = (hlog, o, st') ->
+  o <> ROutOfFuel ->
+  (fuel < wfuel)%nat ->
+  run_ wfuel "read" [] slf (st, log0) = (image Msg o, (slf, (st', (log0 ++ hlog)%list))).
+Proof.
+  intros Hc HR HO Hlt.
+  replace wfuel with (S (fuel + (wfuel - fuel - 1)))%nat by lia.
+  apply src_read_eq; [exact Hc| |exact HO]. apply read_fuel_mono; assumption.
+Qed.
+End Linked.
+
+Goal True. idtac "PA:src_read_eq". Abort.
+Print Assumptions src_read_eq.
+Goal True. idtac "PA:src_read_eq_any_budget". Abort.
+Print Assumptions src_read_eq_any_budget.
+Goal True. idtac "PA:src_read_eq_same_fuel". Abort.
+Print Assumptions src_read_eq_same_fuel.
+Goal True. idtac "PA:src_parse_eq". Abort.
+Print Assumptions src_parse_eq.
+Goal True. idtac "PA:src_parse_rtcm3_eq". Abort.
+Print Assumptions src_parse_rtcm3_eq.
+Goal True. idtac "PA:src_parse_ubx_eq". Abort.
+Print Assumptions src_parse_ubx_eq.
+Goal True. idtac "PA:src_parse_nmea_eq". Abort.
+Print Assumptions src_parse_nmea_eq.
+Goal True. idtac "PA:src_read_bytes_eq". Abort.
+Print Assumptions src_read_bytes_eq.
+Goal True. idtac "PA:src_read_line_eq". Abort.
+Print Assumptions src_read_line_eq.
+Goal True. idtac "PA:src_do_error_eq". Abort.
+Print Assumptions src_do_error_eq.
